@@ -283,15 +283,20 @@ def hypothesis_shard(item: dict[str, Any]) -> Collector:
 
     col = Collector(ID)
     letters = alphabet(False, slight=True)
+    # infinite objective values are values (ordered like any others), not 'undefined'
+    letters += [("fun", float(v), feas, src, tag) for tag, v in (("+inf", "inf"), ("-inf", "-inf")) for feas in (True, False) for src in ("T", "O")]
 
     @st.composite
     def cases(draw: Any) -> dict[str, Any]:  # noqa: ANN401
         if draw(st.integers(0, 5)) == 0:
-            method = draw(st.sampled_from(["slsqp", "differential_evolution", "nelder-mead"]))
-            return {"kind": "real", "method": method, "x0": [draw(st.sampled_from([0.5, -1.0, 1.5])), draw(st.sampled_from([0.0, 1.0]))],
+            method = draw(st.sampled_from(["slsqp", "differential_evolution", "nelder-mead", "powell"]))
+            return {"kind": "real", "method": method, # (also start points outside the bounds [-2, 2]: what is evaluated there violates a bound and is not a candidate)
+                    # (SciPy's differential evolution itself refuses such a start)
+                    "x0": [draw(st.sampled_from([0.5, -1.0, 1.5] + ([] if method == "differential_evolution" else [2.6, -2.75]))),
+                           draw(st.sampled_from([0.0, 1.0] + ([] if method == "differential_evolution" else [2.25])))],
                     "max_functions": draw(st.integers(3, 12)),
                     "options": {"seed": 3, "popsize": 3, "maxiter": 3} if method == "differential_evolution" else {},
-                    "constraint": draw(st.booleans()) and method != "nelder-mead", "c_lb": draw(st.sampled_from([-0.5, 0.0, 0.5])),
+                    "constraint": draw(st.booleans()) and method not in ("nelder-mead", "powell"), "c_lb": draw(st.sampled_from([-0.5, 0.0, 0.5])),
                     "maximize": draw(st.booleans()), "slopes": [draw(st.sampled_from([-1.0, 0.5, 1.0, 2.0])) for _ in range(8)],
                     "nan_every": draw(st.sampled_from([0, 0, 2, 3])) if method == "differential_evolution" else 0,
                     "too_few_at": draw(st.integers(1, 6)) if method != "differential_evolution" and draw(st.booleans()) else None,
